@@ -28,7 +28,7 @@ def bounds(tier):
     if tier == "quick":
         return {"max_pos": 3, "max_neg": 3, "easy": EASY_Q,
                 "grids": ["irregular", "dyadic", "int", "float32", "mixed", "uint"], "targets": tc.EXTREME_TARGETS}
-    return {"max_pos": 5, "max_neg": 5, "easy": EASY_T,
+    return {"max_pos": 4, "max_neg": 4, "easy": EASY_T,
             "grids": ["irregular", "dyadic", "int", "negated", "ulp", "float32", "mixed", "uint"], "targets": tc.EXTREME_TARGETS}
 
 
@@ -41,8 +41,13 @@ def work(tier, seed):
         for kind in b["grids"]:
             if kind == "ulp" and sum(a + c for a, c in bl) > 8:
                 continue
+            # thorough: the long easy-count menu on data sets of up to 6 scores, the square of small counts beyond
+            big_ = tier != "quick" and sum(a + c for a, c in bl) > 6
+            if big_ and kind not in ("irregular", "int", "uint"):
+                continue
             items.append({"blocks": [list(x) for x in bl], "grid": kind, "scalars": False,
-                          "small_easy": kind in ("float32", "mixed", "mixed_narrow", "mixed_narrow_neg", "mixed_f32", "negated", "ulp", "uint"), "mutated": kind == "irregular"})
+                          "small_easy": big_ or kind in ("float32", "mixed", "mixed_narrow", "mixed_narrow_neg", "mixed_f32", "negated", "ulp", "uint"),
+                          "mutated": kind == "irregular" and not big_})
         if tier != "quick" or sum(a + c for a, c in bl) <= 4:
             for kind in ot.MIXED_KINDS[1:] + ["unit"]:
                 items.append({"blocks": [list(x) for x in bl], "grid": kind, "scalars": False, "small_easy": True, "mutated": False})
